@@ -12,6 +12,13 @@ Nothing here knows a local-variable name of the analysed code: roles are bound b
   pruned()        edge filter for CFG.path()/reachable(): branches contradicting the assignment are cut.
   result_sites()  constructor calls that produce a function's return value, also inside private
                   helpers the function returns through.
+  spliced() / inline_all()   analysis copies with private helpers read in.  Before that, on the copy:
+                  desugar_branches() turns `T = A if c else B` / `if a and b:` that hide an await or a
+                  private call into the if-statements they abbreviate, and _hoist_helper_call() gives a
+                  helper called in the middle of an expression (`if await self._h(x) > y:`, a tuple
+                  element, a call argument) a statement of its own when it is evaluated unconditionally
+                  and first -- so a loop moved into a helper *that returns a value used in a condition*
+                  is read like the loop written in line.
 """
 from __future__ import annotations
 
@@ -134,6 +141,164 @@ def private_callee(prog: Program, fn: FuncInfo, call: ast.Call) -> FuncInfo | No
     return tgt
 
 
+def _wants_statement(e: ast.AST) -> bool:
+    """The expression awaits something or calls a private function: only a statement of its own lets the
+    splicers read the callee in / lets the CFG see the suspension point on its own branch."""
+    for x in ast.walk(e):
+        if isinstance(x, ast.Await):
+            return True
+        if isinstance(x, ast.Call):
+            f = x.func
+            if (isinstance(f, ast.Name) and f.id.startswith("_")) or (
+                    isinstance(f, ast.Attribute) and isinstance(f.value, ast.Name) and f.value.id in ("self", "cls") and f.attr.startswith("_")
+                    and not f.attr.startswith("__")):
+                return True
+    return False
+
+
+def desugar_branches(root: FuncNode) -> bool:
+    """Expression-level branching that hides an await / a private call is rewritten (in place, on an analysis copy)
+    as the statement-level branching it abbreviates:
+
+        T = A if c else B            ->  if c: T = A
+        return A if c else B             else: T = B              (likewise `return`, annotated assignment)
+        if a and b: <body>           ->  if a:
+                                             if b: <body>         (no else arm; a later operand awaits / calls)
+
+    Both are exact: the same operands are evaluated in the same order under the same conditions."""
+    changed_any = False
+    for _ in range(4):
+        changed = False
+        for suite in list(_suite_lists(root)):
+            for i, s in enumerate(suite):
+                if isinstance(s, (ast.Assign, ast.AnnAssign, ast.Return)) and isinstance(s.value, ast.IfExp) \
+                        and (_wants_statement(s.value.body) or _wants_statement(s.value.orelse)) \
+                        and (not isinstance(s, ast.Assign) or all(isinstance(t, ast.Name) for t in s.targets)) \
+                        and (not isinstance(s, ast.AnnAssign) or isinstance(s.target, ast.Name)):
+                    arms = []
+                    for v in (s.value.body, s.value.orelse):
+                        s2 = copy.copy(s)
+                        s2.value = v
+                        arms.append(s2)
+                    suite[i] = ast.copy_location(ast.If(test=s.value.test, body=[arms[0]], orelse=[arms[1]]), s)
+                    changed = True
+                elif isinstance(s, ast.If) and not s.orelse and isinstance(s.test, ast.BoolOp) and isinstance(s.test.op, ast.And):
+                    vals = s.test.values
+                    k = next((j for j in range(1, len(vals)) if _wants_statement(vals[j])), None)
+                    if k is not None:
+                        head = vals[0] if k == 1 else ast.copy_location(ast.BoolOp(op=ast.And(), values=vals[:k]), s.test)
+                        rest = vals[k] if k == len(vals) - 1 else ast.copy_location(ast.BoolOp(op=ast.And(), values=vals[k:]), s.test)
+                        inner = ast.copy_location(ast.If(test=rest, body=s.body, orelse=[]), s)
+                        suite[i] = ast.copy_location(ast.If(test=head, body=[inner], orelse=[]), s)
+                        changed = True
+        changed_any = changed_any or changed
+        if not changed:
+            break
+    if changed_any:
+        ast.fix_missing_locations(root)
+    return changed_any
+
+
+def _evaluated_before(parent: ast.AST, child: ast.AST) -> list[ast.AST] | None:
+    """The sub-expressions of `parent` evaluated before its operand `child`, when `child` is evaluated on every
+    evaluation of `parent`; None when it is conditional (short-circuit, IfExp arm, chained comparison) or sits in
+    a scope of its own (lambda, comprehension)."""
+    def upto(seq: list[Any]) -> list[ast.AST] | None:
+        out: list[ast.AST] = []
+        for x in seq:
+            if x is child:
+                return out
+            if x is not None:
+                out.append(x)
+        return None
+
+    if isinstance(parent, ast.UnaryOp):
+        return [] if parent.operand is child else None
+    if isinstance(parent, (ast.Await, ast.keyword)):
+        return [] if parent.value is child else None
+    if isinstance(parent, (ast.Attribute, ast.Starred, ast.NamedExpr, ast.FormattedValue)):
+        return [] if parent.value is child else upto([parent.value, getattr(parent, "format_spec", None)])
+    if isinstance(parent, ast.BinOp):
+        return upto([parent.left, parent.right])
+    if isinstance(parent, ast.Compare):
+        return upto([parent.left, parent.comparators[0]])
+    if isinstance(parent, ast.BoolOp):
+        return [] if parent.values[0] is child else None
+    if isinstance(parent, ast.IfExp):
+        return [] if parent.test is child else None
+    if isinstance(parent, ast.Subscript):
+        return upto([parent.value, parent.slice])
+    if isinstance(parent, ast.Slice):
+        return upto([parent.lower, parent.upper, parent.step])
+    if isinstance(parent, ast.Call):
+        before = upto([parent.func, *parent.args, *parent.keywords])
+        return None if before is None else [b.value if isinstance(b, ast.keyword) else b for b in before]
+    if isinstance(parent, (ast.Tuple, ast.List, ast.Set)):
+        return upto(list(parent.elts))
+    if isinstance(parent, ast.Dict):
+        return upto([x for kv in zip(parent.keys, parent.values) for x in kv])
+    if isinstance(parent, ast.JoinedStr):
+        return upto(list(parent.values))
+    return None
+
+
+def _hoist_helper_call(s: ast.stmt, tmp: str, target_of: Callable[[ast.Call], FuncInfo | None]) -> ast.stmt | None:
+    """A helper called in the middle of an expression (`if await self._h(a) > b:`, `return f(self._h(a))`,
+    `x = 1 + await h(a)`, `return (await h(a), await h(b))`, `for y in self._h(a):`): when the call is evaluated on
+    every execution of the statement, exactly once, and before everything else in it that could have or see an
+    effect, it is moved in front of the statement (`tmp = await self._h(a)`; the statement reads `tmp`) -- the new
+    statement is returned, and is then a whole-statement call the splicers can read in.  `target_of` says which
+    calls are worth it (the callee the splicer would accept).  None when there is no such call."""
+    if isinstance(s, (ast.If, ast.Assert)):
+        own: ast.AST | None = s.test
+    elif isinstance(s, (ast.For, ast.AsyncFor)):
+        own = s.iter
+    elif isinstance(s, (ast.Return, ast.Expr, ast.Assign, ast.AnnAssign)) or (isinstance(s, ast.AugAssign) and isinstance(s.target, ast.Name)):
+        own = s.value
+    else:
+        own = None
+    if own is None:
+        return None
+    parent: dict[int, ast.AST] = {}
+    for p in ast.walk(own):
+        for c in ast.iter_child_nodes(p):
+            parent[id(c)] = p
+    for call in ast.walk(own):
+        if not isinstance(call, ast.Call):
+            continue
+        top: ast.AST = call
+        if isinstance(parent.get(id(call)), ast.Await):
+            top = parent[id(call)]
+        if top is own:
+            continue
+        tgt = target_of(call)
+        if tgt is None or tgt.is_async != (top is not call):
+            continue
+        # every ancestor evaluates it unconditionally, and what is evaluated earlier is a plain local / constant
+        # (or the method looked up for an enclosing call): nothing the helper could change, nothing that acts
+        node, good = top, True
+        while good and node is not own:
+            par = parent[id(node)]
+            before = _evaluated_before(par, node)
+            good = before is not None and all(
+                isinstance(b, (ast.Name, ast.Constant)) or (isinstance(par, ast.Call) and b is par.func and isinstance(b, ast.Attribute)
+                                                           and isinstance(b.value, ast.Name)) for b in before)
+            node = par
+        if not good:
+            continue
+        par = parent[id(top)]
+        new = ast.copy_location(ast.Name(id=tmp, ctx=ast.Load()), top)
+        for field, val in ast.iter_fields(par):
+            if val is top:
+                setattr(par, field, new)
+            elif isinstance(val, list):
+                for k, x in enumerate(val):
+                    if x is top:
+                        val[k] = new
+        return ast.copy_location(ast.Assign(targets=[ast.Name(id=tmp, ctx=ast.Store())], value=top), s)
+    return None
+
+
 def splice_blocks(prog: Program, fn: FuncInfo, depth: int = 3) -> FuncNode:
     """Copy of `fn` in which every statement that is just a call of a simple private helper
     (`h(...)`, `x = h(...)`, `return h(...)`, awaited or not) is replaced by
@@ -141,9 +306,9 @@ def splice_blocks(prog: Program, fn: FuncInfo, depth: int = 3) -> FuncNode:
     Unlike substitution this keeps every argument evaluated once, in order, and works for helpers
     that re-assign their parameters; reaching definitions see through the parameter copies."""
     root = copy.deepcopy(fn.node)
-    counter = 0
+    counter = hoists = 0
     for _ in range(depth):
-        changed = False
+        changed = desugar_branches(root)
         nested = {n.name: n for n in ast.walk(root) if isinstance(n, (ast.FunctionDef, ast.AsyncFunctionDef)) and n is not root}
         for suite in list(_suite_lists(root)):
             i = 0
@@ -156,13 +321,34 @@ def splice_blocks(prog: Program, fn: FuncInfo, depth: int = 3) -> FuncNode:
                         and not any(s is x for x in ast.walk(nested[call.func.id])):
                     # a closure defined in this very function: its free variables are this function's locals
                     tgt = FuncInfo(call.func.id, fn.module, nested[call.func.id], None, fn)
+                if tgt is None and hoists < 24 and not isinstance(s, (ast.FunctionDef, ast.AsyncFunctionDef, ast.ClassDef)):
+                    # a block helper called in the middle of the statement's expression: moved in front of it first
+                    def block_helper(c: ast.Call, s: ast.stmt = s) -> FuncInfo | None:
+                        t = private_callee(prog, fn, c)
+                        if t is None and isinstance(c.func, ast.Name) and c.func.id in nested \
+                                and not any(s is x for x in ast.walk(nested[c.func.id])):
+                            t = FuncInfo(c.func.id, fn.module, nested[c.func.id], None, fn)
+                        if t is None or _simple_helper(t.node) != "block" or _bind(t.node, c) is None \
+                                or any(isinstance(x, (ast.Yield, ast.YieldFrom, ast.Global, ast.Nonlocal)) for x in ast.walk(t.node)):
+                            return None
+                        return t
+
+                    moved = _hoist_helper_call(s, f"hoisted__{hoists + 1}", block_helper)
+                    if moved is not None:
+                        hoists += 1
+                        suite.insert(i, moved)
+                        changed = True
+                        continue
                 if tgt is None or counter >= 24 or _simple_helper(tgt.node) is None or tgt.is_async != isinstance(val, ast.Await) \
                         or any(isinstance(x, (ast.Yield, ast.YieldFrom, ast.Global, ast.Nonlocal)) for x in ast.walk(tgt.node)):
                     i += 1
                     continue
                 assert isinstance(call, ast.Call)
                 binds = _bind(tgt.node, call)
-                if binds is None:
+                hbody = _strip_doc(tgt.node.body)
+                early = any(isinstance(x, ast.Return) and x is not hbody[-1] for st in hbody for x in ast.walk(st))
+                if binds is None or (early and not isinstance(s, ast.Return)):
+                    # (a helper's early `return` is the caller's only in `return h(...)`: left to the substituting splicer)
                     i += 1
                     continue
                 counter += 1
@@ -941,7 +1127,7 @@ def inline_all(prog: Program, fn: FuncInfo, stop: Iterable[str] = (), depth: int
 
     hoists = 0
     for _ in range(depth):
-        changed = False
+        changed = desugar_branches(root)
         nested = {n.name: n for n in ast.walk(root) if isinstance(n, (ast.FunctionDef, ast.AsyncFunctionDef)) and n is not root}
         # `f(a, self._h(..))` / `x = g(await self._h(..))`: a private-helper call that is a direct argument of the
         # statement's outermost call, all earlier arguments being plain names, is given a name of its own first
@@ -983,6 +1169,25 @@ def inline_all(prog: Program, fn: FuncInfo, stop: Iterable[str] = (), depth: int
                 if tgt is not None and isinstance(call.func, ast.Name) and call.func.id in nested \
                         and any(s is x for x in ast.walk(nested[call.func.id])):
                     tgt = None  # a closure calling itself
+                if tgt is None and hoists < 20 and not isinstance(s, (ast.FunctionDef, ast.AsyncFunctionDef, ast.ClassDef)):
+                    # a callee in the middle of the statement's expression (a tuple element, an operand of a comparison, an
+                    # `if` test ...), evaluated unconditionally and first: given a statement of its own, then read in
+                    def readable(c: ast.Call, s: ast.stmt = s) -> FuncInfo | None:
+                        t = callee_of(c, nested)
+                        if t is None or (isinstance(c.func, ast.Name) and c.func.id in nested and any(s is x for x in ast.walk(nested[c.func.id]))):
+                            return None
+                        b0 = _strip_doc(t.node.body)
+                        if _bind(t.node, c) is None or not b0 or returns_in_loops(b0) \
+                                or any(isinstance(x, (ast.Yield, ast.YieldFrom, ast.Global, ast.Nonlocal)) for x in ast.walk(t.node)):
+                            return None
+                        return t
+
+                    moved = _hoist_helper_call(s, f"__mid_{hoists + 1}", readable)
+                    if moved is not None:
+                        hoists += 1
+                        suite.insert(i, moved)
+                        changed = True
+                        continue
                 if tgt is None or counter >= 40 or tgt.is_async != isinstance(val, ast.Await) \
                         or any(isinstance(x, (ast.Yield, ast.YieldFrom, ast.Global, ast.Nonlocal)) for x in ast.walk(tgt.node)):
                     i += 1
